@@ -142,3 +142,15 @@ Proof.
   - apply (L_break [] (asc 133) [] []); [constructor | cbn; tauto | | constructor].
     intros [E _]. vm_compute in E. discriminate.
 Qed.
+
+(* ---- the validating setter of BibtexFormat.value_column (writer.py): accepted exactly for an int >= 0 (bool counts
+   as int) and the string 'auto'; a rejected assignment raises ValueError and leaves the format as it was *)
+From BP Require Import Model.FormatSetters Proofs.FormatSetterProofs.
+Theorem C06_value_column_setter : forall f a,
+  (snd (assign_value_column f a) = false <->
+     (exists z, a = VInt z /\ (0 <= z)%Z) \/ (exists b, a = VBool b) \/ a = VStr s_auto)
+  /\ (snd (assign_value_column f a) = true -> fst (assign_value_column f a) = f)
+  /\ (forall z, (0 <= z)%Z -> f_column (fst (assign_value_column f (VInt z))) = ColN (Z.to_nat z))
+  /\ f_column (fst (assign_value_column f (VStr s_auto))) = ColAuto.
+Proof. exact value_column_setter. Qed.
+Print Assumptions C06_value_column_setter.
